@@ -1021,6 +1021,25 @@ func (c *FnCtx) ret(x *ssa.Return) {
 			parts := c.V.DB.splitConj(cl.E, 0)
 			for pi, pe := range parts {
 				env := c.specEnvFor(c.cur, c.entry, results)
+				// a local that is not (yet) defined on the path to this return denotes an arbitrary value
+				// here: a guarded clause still holds on paths where its guard is false, and a return that
+				// bypasses the code the clause talks about cannot establish it
+				orig := env.resolve
+				havocked := map[string]Val{}
+				env.resolve = func(name string) (Val, bool) {
+					if v, ok := orig(name); ok {
+						return v, true
+					}
+					if hv, ok := havocked[name]; ok {
+						return hv, true
+					}
+					if vs := c.nameAll[name]; len(vs) > 0 && cl.AllReturns {
+						hv := c.havocVal("undef_"+name, vs[0].Type(), c.cur, c.curItems)
+						havocked[name] = hv
+						return hv, true
+					}
+					return Val{}, false
+				}
 				ok := true
 				var f string
 				func() {
